@@ -43,7 +43,7 @@ ASSUMPTIONS = [
     '(the encoder is specified to re-derive them); fragments without one carry arbitrary offsets',
     'oracle: dlv.oracles.boxwriter (writer) and dlv.oracles.isobmff (walker); no dashlive code',
 ]
-REQUIRED_COUNTERS = ['rt.identical', 'rt.reencoded', 'lazy.compared', 'json.identical', 'edit.walked',
+REQUIRED_COUNTERS = ['rt.identical', 'rt.reencoded', 'lazy.compared', 'lazy.out_of_order', 'json.identical', 'edit.walked',
                      'graft.cases']
 EXHAUSTIVE = {'quick': False, 'thorough': False}
 # every box class registered with the parser must have been re-encoded and compared at least once
@@ -241,6 +241,11 @@ def gen_moov(rng, stsds) -> tuple[bytes, int | None, list[str]]:
     trak = bw.container(b'trak', [bw.tkhd(rng), mdia])
     mvex_children = ([bw.mehd(rng)] if rng.random() < 0.6 else []) + [bw.trex(rng) for _ in range(rng.choice([1, 1, 2]))]
     children = [bw.mvhd(rng), trak, bw.container(b'mvex', mvex_children)]
+    if rng.random() < 0.15:
+        # a second track (same sample description): repeated sibling types
+        mdia2 = bw.container(b'mdia', [bw.mdhd(rng), bw.hdlr(rng), minf])
+        children.insert(2, bw.container(b'trak', [bw.tkhd(rng), mdia2]))
+        what = what + ['two-trak']
     for _ in range(rng.choice([0, 0, 1, 2])):
         children.insert(rng.randrange(1, len(children) + 1), bw.pssh(rng))
     if rng.random() < 0.2:
@@ -283,6 +288,11 @@ def gen_moof(rng, iv: int, with_mdat: bool, start: int) -> tuple[bytes, dict]:
     kids.append(bw.trun(rng, count=n))
     traf = bw.container(b'traf', kids)
     mchildren = [bw.mfhd(rng), traf]
+    if not with_mdat and not cenc and rng.random() < 0.2:
+        # a second track fragment (no media data follows: nothing to address)
+        tfhd2, _ = bw.tfhd(rng, track_id=3, allow_base=False)
+        mchildren.append(bw.container(b'traf', [tfhd2, bw.trun(rng, count=rng.choice([0, 1, 3]))]))
+        info['two_traf'] = True
     if rng.random() < 0.15:
         mchildren.append(bw.pssh(rng))
     moof = bytearray(bw.container(b'moof', mchildren))
@@ -296,7 +306,7 @@ def gen_moof(rng, iv: int, with_mdat: bool, start: int) -> tuple[bytes, dict]:
             fix_saio(moof, start, n)
             info['cenc'] = True
         return bytes(moof), info
-    mdat_payload = rng.randbytes(rng.choice([0, 1, 64]))
+    mdat_payload = bw.blob(rng, rng.choice([0, 1, 64]))
     root = isobmff.parse_file(bytes(moof))
     m = root.children[0]
     tf = m.find(b'traf', b'tfhd')
@@ -382,6 +392,8 @@ def gen_case(rng, stsds) -> dict:
         what.append(info['layout'])
         if info.get('cenc'):
             what.append('cenc')
+        if info.get('two_traf'):
+            what.append('two-traf')
         if with_mdat and rng.random() < 0.3:
             parts.append(bw.unknown(rng))
     return {'kind': kind, 'iv': iv, 'data': b''.join(parts), 'what': what}
@@ -411,6 +423,20 @@ def readers(mp4mod, data: bytes, which: int):
 def touch_all(atom) -> None:
     for ch in list(atom.children or []):
         touch_all(ch)
+
+
+def touch_out_of_order(atom, rng) -> None:
+    """forces every lazily loaded box, later siblings before earlier ones (reverse or shuffled order)"""
+    kids = list(atom.children or [])
+    if rng.random() < 0.5:
+        kids.reverse()
+    else:
+        rng.shuffle(kids)
+    for ch in kids:
+        # lazy_load() parses this one box (toJSON would walk, and so load, its whole subtree in
+        # document order); its children are placeholders again
+        real = ch.lazy_load() if hasattr(ch, 'lazy_load') else ch
+        touch_out_of_order(real, rng)
 
 
 def first_diff(a: bytes, b: bytes) -> int:
@@ -527,6 +553,28 @@ def monitor_lazy(res: ShardResult, mp4, case: dict, replay: dict) -> None:
     except Exception as err:
         res.violation(f'touched-lazy-encode-raises-{type(err).__name__}',
                       f'encode of a fully touched lazy tree raised {err!r}', replay)
+    # the same with the boxes forced out of document order: what is loaded first must not matter
+    import random
+    import zlib
+    try:
+        lazy2 = load(mp4, data, 'r', True, case['iv'])
+        touch_out_of_order(lazy2, random.Random(zlib.crc32(data)))
+        jl2 = jsonable(lazy2.toJSON())
+        out = lazy2.encode()
+    except Exception as err:
+        res.violation(f'out-of-order-lazy-access-raises-{type(err).__name__}',
+                      f'forcing lazy boxes out of document order raised {err!r} ({case["kind"]}, {case["what"]})', replay)
+        return
+    res.count('lazy.out_of_order')
+    if jl2 != je:
+        path = diff_path(je, jl2)
+        res.violation(f'out-of-order-lazy-fields-differ-{path.split("/")[-1]}',
+                      f'lazy tree forced out of document order exposes other field values than the eager tree at {path}', replay)
+    elif out != data:
+        off = first_diff(out, data)
+        w = where(data, off)
+        res.violation(f'out-of-order-lazy-roundtrip-differs-{mech_box(w)}',
+                      f'lazy tree forced out of document order encodes differently at offset {off} (in {w})', replay)
 
 
 def diff_path(a, b, path='') -> str:
